@@ -139,10 +139,16 @@ func runHostileCase(c *fw.Ctx, e *env, h *hostile, n int, hc *Case) result {
 }
 
 func runHostile(c *fw.Ctx, e *env) {
-	sizes := []int{1000, 60000, 1100000}
+	// 3*10^6: three times the depth at which the matcher's recursion guard answers
+	// "pattern too complex". The worker's goroutine stack limit is 256 MB (see run):
+	// the guarded recursion needs that much, anything deeper overflows it.
+	sizes := []int{1000, 60000, 1100000, 3000000}
 	idx := 0
 	for _, h := range hostileList() {
 		for _, n := range sizes {
+			if n == 3000000 && (h.fn == "gsub" || h.fn == "gmatch") {
+				continue
+			}
 			if h.fn == "gmatch" && n > 1000 {
 				if n > 60000 {
 					continue
